@@ -178,8 +178,20 @@ def _mask_accumulation(ctx, run, f, eh):
             e = f.exprs[i]
             if e["k"] == "asg" and e["op"] == "|=":
                 l = f.exprs[ex.skip(f, e["c"][0])]
-                if l["k"] == "ref" and l["name"] == m and "event_handler.event_mask" in atoms.Operand(f, e["c"][1]).fields:
+                ro = atoms.Operand(f, e["c"][1])
+                if l["k"] == "ref" and l["name"] == m and "event_handler.event_mask" in ro.fields:
                     acc.add(b)
+                elif l["k"] == "ref" and l["name"] == m and len(ro.locals) == 1 and not ro.fields and not ro.calls:
+                    # `eh->event_mask = x; mask |= x;`: the value just stored into the record
+                    x = sorted(ro.locals)[0]
+                    pos_i = flow.elem_pos(f)[i][1]
+                    for j in flow.events(f, b):
+                        if flow.elem_pos(f)[j][1] >= pos_i:
+                            break
+                        for lhs, var, op, rhs in flow.stores(f, j):
+                            if lhs is not None and rhs is not None and op == "=" and atoms.store_to_field("event_handler.event_mask")(f, j) \
+                                    and atoms.Operand(f, rhs).locals == {x} and not atoms.Operand(f, rhs).fields:
+                                acc.add(b)
             if e["k"] == "call" and e.get("callee") == "free":
                 frees.add(b)
     # a path round the loop that neither frees the node nor adds its mask?
